@@ -373,6 +373,12 @@ def target_file_bytes(t):
             raise SelfCheckError('reference .p8 writer/reader disagree on %r' % code)
         if not t.get('full', True) and not t.get('mem_seed'):
             data = elide(data)
+        if code == b'' and t.get('label', 0) != 1:
+            # an assets-only cart: no code, and no __lua__ section either (the one section a .p8 may lack)
+            if b'__lua__\n__gfx__' in data:
+                data = data.replace(b'__lua__\n__gfx__', b'__gfx__', 1)
+            elif data.endswith(b'__lua__\n'):
+                data = data[:-len(b'__lua__\n')]
     else:
         if b'\x00' in code or len(code) > 0x3d00 or code.startswith(b':c:'):
             raise SelfCheckError('code not storable raw: %r' % code[:40])
@@ -541,6 +547,8 @@ def labels_for(spec):
                 labs.append('p8png_compressed_no_final_newline')
         if not content:
             labs.append('empty_target')
+            if t['kind'] == 'p8' and b'__lua__' not in target_file_bytes(t):
+                labs.append('p8_target_without_lua_section')
         if b'\r\n' in content:
             labs.append('crlf_target')
         if any(parse_include(ln) for ln in tl) and (sel is None or
@@ -628,7 +636,7 @@ REQUIRED = ('includes_0', 'includes_1', 'includes_2', 'includes_3', 'includes_4'
             'include_last_line', 'include_middle', 'target_no_final_newline',
             'line_follows_target_without_final_newline', 'nested_include_verbatim', 'subdir', 'same_target_twice',
             'include_line_padded', 'name_with_dash_dot_digit', 'crlf_target', 'missing_target', 'place_plain',
-            'place_carts_root', 'place_carts_sub', 'tab_14_or_later_of_many')
+            'place_carts_root', 'place_carts_sub', 'tab_14_or_later_of_many', 'p8_target_without_lua_section')
 
 
 def vacuity(total, tier):
